@@ -28,8 +28,10 @@ META = {
     "correspondence by raising TaskHooks and injected exceptions on the real code",
     "text": "Lean theorems: C35_no_fault (+_async): every call without an injected exception — body succeeding or raising any "
     "kind of exception, cached or not — restores the working directory, removes the info file and leaves a complete result "
-    "and job record; C35_partial (+_async): the same for an exception injected at any position inside the try body, from "
-    "every initial world; C35_hooks (+_async), unbounded in the history length: pre_run_task and post_run_task are each "
+    "and job record; C35_safe / C35_exact (+_async): over the positions of the regenerated skeleton the postcondition survives an "
+    "injected exception IFF the position is not a D20 position (between writing the info file and `try:`, or inside "
+    "`finally:` up to os.chdir(cwd)); at every other position (pre-lock hook, try body, except handler, after the "
+    "restore) it holds from every initial world; C35_hooks (+_async), unbounded in the history length: pre_run_task and post_run_task are each "
     "called exactly once per entered task body, C35_hooks_call: never on a cache hit.  The full statement "
     "(C35_full_statement: any injection position) is refuted by C35_full_fails with the witnesses C35_witness_pre/_post "
     "(raising pre_run_task / post_run_task hook: info file left, working directory not restored) = known finding D20.",
@@ -48,6 +50,14 @@ OBLIGATIONS = [
         "C35_no_fault_async",
         "C35_partial",
         "C35_partial_async",
+        "C35_safe",
+        "C35_safe_async",
+        "C35_exact",
+        "C35_exact_async",
+        "CheckRunX.extra",
+        "CheckAsyncX.extra",
+        "CheckRunX.d20Fails",
+        "CheckAsyncX.d20Fails",
         "C35_witness_pre",
         "C35_witness_post",
         "C35_witness_pre_async",
